@@ -154,18 +154,29 @@ def timings(**kw):
 
 
 def late(tm, on=True):
-    """-> (timings object to construct with, apply()).  With `on`, the objects are constructed with a default Timings()
-    whose fields are assigned afterwards by apply() - the way an application configures a protocol object it got from
-    create_endpoints(), which takes no timings argument - instead of receiving the finished object."""
+    """-> (constructor argument, apply(prot=None) -> the live Timings object).  With `on`, nothing is passed to the
+    constructor: the protocol object makes its own default Timings, whose fields apply(prot) assigns afterwards - the way
+    an application configures a protocol object it got from create_endpoints(), which takes no timings argument.  A
+    second, equally default-constructed protocol object of the same process (the other address family of a dual-stack
+    node) is then given settings of its own; it is never started.  Without a protocol object (a ServiceInstance's own
+    timings) apply() fills a fresh Timings()."""
     if not on:
-        return tm, (lambda: None)
-    d = sd.Timings()
+        return tm, (lambda prot=None: tm)
+    own = sd.Timings()
 
-    def apply():
+    def apply(prot=None):
+        target = prot.timings if prot is not None else own
         for f in dataclasses.fields(tm):
-            setattr(d, f.name, getattr(tm, f.name))
+            setattr(target, f.name, getattr(tm, f.name))
+        if prot is not None:
+            other = sd.ServiceDiscoveryProtocol(MCAST6)
+            for name, v in (("INITIAL_DELAY_MIN", 0.0123), ("INITIAL_DELAY_MAX", 0.0456), ("REPETITIONS_MAX", 6), ("REPETITIONS_BASE_DELAY", 0.0789),
+                            ("CYCLIC_OFFER_DELAY", 0.77), ("FIND_TTL", 9), ("ANNOUNCE_TTL", 9), ("SUBSCRIBE_TTL", 9), ("SUBSCRIBE_REFRESH_INTERVAL", 0.66),
+                            ("SEND_COLLECTION_TIMEOUT", 0.0321), ("REQUEST_RESPONSE_DELAY_MIN", 0.0111), ("REQUEST_RESPONSE_DELAY_MAX", 0.0222)):
+                setattr(other.timings, name, v)
+        return target
 
-    return d, apply
+    return None, apply
 
 
 # ---------------------------------------------------------------- addresses
